@@ -249,6 +249,77 @@ theorem inv_take {s : State} (hI : Inv s) {k a : Nat} (hk : AMap.lookup s.held k
       · simp only [e2, if_false]
         exact hrev k' a'
 
+/-- "give the free address a — wherever it stands on the free list — to k" (Reserve) -/
+theorem inv_giveAt {s : State} (hI : Inv s) {k a : Nat}
+    (hk : AMap.lookup s.held k = none) (ha : a ∈ s.avail) :
+    Inv { s with avail := s.avail.erase a, held := AMap.insert s.held k a,
+                 rev := if s.cfg.hasRev then AMap.insert s.rev a k else s.rev } := by
+  have hafree : ∀ k', AMap.lookup s.held k' ≠ some a := fun k' => hI.avail_not_held ha k'
+  refine ⟨nodupKeys_insert hI.nd _ _, hI.und, ?_, hI.parkedMarked, ?_, hI.lf⟩
+  · show (vals (AMap.insert s.held k a) ++ s.avail.erase a ++ s.parked).Perm s.cfg.univ
+    rw [vals_insert_of_none a hk]
+    refine List.Perm.trans ?_ hI.perm
+    have h1 : s.avail.Perm (a :: s.avail.erase a) := List.perm_cons_erase ha
+    have h2 := ((h1.append_left (vals s.held)).append_right s.parked).symm
+    refine List.Perm.trans ?_ h2
+    simp only [List.cons_append, List.append_assoc]
+    exact List.perm_middle.symm
+  · intro hr k' a'
+    show AMap.lookup (AMap.insert s.held k a) k' = some a' ↔
+      AMap.lookup (if s.cfg.hasRev then AMap.insert s.rev a k else s.rev) a' = some k'
+    have hr : s.cfg.hasRev = true := hr
+    simp only [hr, if_true, lookup_insert]
+    have hrev := hI.revOK hr
+    by_cases e : k' = k
+    · subst e
+      by_cases e2 : a' = a
+      · subst e2; simp
+      · have e2' : ¬ a = a' := fun x => e2 x.symm
+        simp only [if_true, Option.some.injEq, e2, e2', if_false, false_iff]
+        intro h
+        have := (hrev k' a').mpr h
+        rw [hk] at this; simp at this
+    · simp only [e, if_false]
+      by_cases e2 : a' = a
+      · subst e2
+        have e' : ¬ k = k' := fun x => e x.symm
+        simp only [if_true, Option.some.injEq, e', iff_false]
+        exact hafree k'
+      · simp only [e2, if_false]
+        exact hrev k' a'
+
+theorem erase_erase_self (m : AMap Nat Nat) (k : Nat) : AMap.erase (AMap.erase m k) k = AMap.erase m k :=
+  erase_eq_self_of_not_mem (not_mem_keys_erase m k)
+
+theorem insert_erase_self (m : AMap Nat Nat) (k a : Nat) :
+    AMap.insert (AMap.erase m k) k a = AMap.insert m k a := by
+  unfold AMap.insert; rw [erase_erase_self]
+
+theorem inv_reserve {s : State} (hI : Inv s) (k a : Nat) : Inv (reserve s k a).1 := by
+  unfold reserve
+  split
+  · rename_i cur hcur
+    split
+    · exact hI
+    · split
+      · rename_i hne ha
+        -- = take cur from k, then give a (found on the free list) to k
+        have h1 := inv_take hI hcur
+        have hk1 : AMap.lookup (AMap.erase s.held k) k = none := by simp
+        have ha1 : a ∈ s.avail ++ [cur] := List.mem_append_left _ ha
+        have h2 := inv_giveAt h1 hk1 ha1
+        have e1 : (s.avail ++ [cur]).erase a = s.avail.erase a ++ [cur] := List.erase_append_left _ ha
+        simp only [e1, insert_erase_self] at h2
+        by_cases hr : s.cfg.hasRev = true
+        · simp only [hr, if_true] at h2 ⊢; exact h2
+        · simp only [hr] at h2 ⊢; exact h2
+      · exact hI
+  · rename_i hnone
+    split
+    · rename_i ha
+      exact inv_giveAt hI hnone ha
+    · exact hI
+
 theorem inv_alloc {s : State} (hI : Inv s) (k : Nat) : Inv (alloc s k).1 := by
   unfold alloc
   simp only [hI.lf, if_true]
@@ -313,6 +384,7 @@ theorem inv_step {s : State} (hI : Inv s) (op : Op) : Inv (step s op).1 := by
   · exact hI
   · exact hI
   · exact hI
+  · exact inv_reserve hI _ _
 
 theorem inv_run {s : State} (hI : Inv s) (ops : List Op) : Inv (run s ops) := by
   induction ops generalizing s with
@@ -328,6 +400,10 @@ theorem step_cfg (s : State) (op : Op) : (step s op).1.cfg = s.cfg := by
   · unfold release; split <;> rfl
   · unfold releaseVal; split <;> rfl
   · rfl
+  · unfold reserve; split
+    · split <;> try rfl
+      split <;> rfl
+    · split <;> rfl
 
 theorem run_cfg (s : State) (ops : List Op) : (run s ops).cfg = s.cfg := by
   induction ops generalizing s with
